@@ -131,6 +131,8 @@ pub fn catalogue() -> Vec<CatOp> {
     op!(v, "p1.remove_attribute(UUID)", false, |s: &Seed| format!("{}", s.p1.remove_attribute(AttributeName::Uuid)));
     op!(v, "p10.get_or_create(ELEMENTS)", false, |s: &Seed| res(s.p10.get_or_create_sub_element(ElementName::Elements)));
     op!(v, "els.get_or_create_named(CAN-CLUSTER,c2)", false, |s: &Seed| res(s.els.get_or_create_named_sub_element(ElementName::CanCluster, "c2")));
+    op!(v, "l2.set_character_data(x)", false, |s: &Seed| res(s.l2.set_character_data("x")));
+    op!(v, "l2.create_at(TT,0)", false, |s: &Seed| res(s.l2.create_sub_element_at(ElementName::Tt, 0)));
     op!(v, "l2.insert_text(1)", false, |s: &Seed| res(s.l2.insert_character_content_item("more", 1)));
     op!(v, "l2.remove_text(0)", false, |s: &Seed| res(s.l2.remove_character_content_item(0)));
     op!(v, "file.set_filename(b.arxml)", false, |s: &Seed| res(s.file.set_filename("b.arxml")));
